@@ -109,7 +109,30 @@ def run(tier="quick", seed=0):
                      "constraints": [repr(c) for c in cons]}, "rand")
         if i < 2:
             samples.append({"vertices": {k: {str(r): n for r, n in v.items()} for k, v in vr.items()}, "placements": {k: list(v) for k, v in pl.items()}})
+    # (e) large quantities (bytes of SDRAM, user-defined resources): the same postconditions with sizes around 2**k, k up to 70,
+    #     where anything but integer arithmetic goes wrong; and align() itself against the least multiple not below the value
+    from rig.place_and_route.allocate.utils import align
+    for k in list(range(0, 72, 3)) + [52, 53, 54, 63, 64]:
+        for d in (-1, 0, 1, 3):
+            value = (1 << k) + d
+            if value < 0:
+                continue
+            for a in (1, 2, 3, 4, 7, 8, 4096, (1 << 31) + 1):
+                ev += 1
+                got = align(value, a)
+                want = -(-value // a) * a
+                if got != want or not isinstance(got, int):
+                    record("align(%d, %d) = %r, the least multiple of %d not below the value is %d" % (value, a, got, a, want), {"value": value, "alignment": a}, "align")
+        big = object()
+        for a in (1, 4, 8):
+            need1 = (1 << k) + 1
+            vr = {"big": {big: need1}, "small": {big: 8}}
+            m = Machine(1, 1, chip_resources={big: (1 << (k + 3)) + 64})
+            cons = [ARC(big, a)] if a > 1 else []
+            why = check(vr, m, cons, {"big": (0, 0), "small": (0, 0)}, a == 1, "large")
+            record(why, {"need_big": need1, "need_small": 8, "capacity": (1 << (k + 3)) + 64, "alignment": a}, "large")
+            distinct.add(("large", k, a))
     return {"name": "c05_allocate", "evaluations": ev, "distinct_nontrivial": len(distinct),
-            "rule": "one chip of 8 cores: every 1-3 vertices with needs 0..3 x global reservations (none, 1, 2 from 9 slices incl. an empty one) x local reservation x alignment 1/2/4; completeness family: reservations only at the ends (0..2 low, 0..2 high), no alignment, every need vector with sum <= free must succeed; seeded two-chip two-resource layouts with resource exceptions; exact size, in range, aligned, unreserved, disjoint checked on every result",
+            "rule": "one chip of 8 cores: every 1-3 vertices with needs 0..3 x global reservations (none, 1, 2 from 9 slices incl. an empty one) x local reservation x alignment 1/2/4; completeness family: reservations only at the ends (0..2 low, 0..2 high), no alignment, every need vector with sum <= free must succeed; seeded two-chip two-resource layouts with resource exceptions; large quantities: align() on 2**k+d (k <= 70) x eight alignments, and two vertices needing 2**k+1 and 8 units of a user-defined resource with alignment 1/4/8; exact size, in range, aligned, unreserved, disjoint checked on every result",
             "bound": "capacity 8, <= 3 vertices (4 seeded), <= 3 reservations", "exhaustive": False, "label": "bounded",
             "samples": samples, "violations": viol, "seconds": round(time.time() - t0, 2)}
